@@ -166,6 +166,19 @@ def handleLp (reasm : Bool) (validL3 : Bytes → Bool) (store : Store) (f : Fram
     else if f.cnt.isSome ∨ f.idx.isSome then (store, .drop)
     else finish store f.frag
 
+/-- `dispatchInterest` / `dispatchData` (fw/face/link-service.go): the forwarding threads a delivered
+    packet is queued to, in call order.  `hn` = `fw.HashNameToFwThread(name)`, `hp` = the ascending
+    threads of `fw.HashNameToAllPrefixFwThreads(name)` (every prefix incl. the zero-length one) — the
+    name hash itself is an environment fact here (property C01 / assumption A-hash).
+    Interest → the thread of its name; Data with a 6-byte PIT token → the thread named by the first
+    two token bytes (none if no such thread: "Invalid PIT token - DROP"); other Data → every prefix
+    thread. -/
+def dispatchThreads (nThreads : Nat) (wire token : Bytes) (hn : Nat) (hp : List Nat) : List Nat :=
+  if wire.head? = some 5 then [hn]
+  else if token.length = 6 then
+    (if beDec (token.take 2) < nThreads then [beDec (token.take 2)] else [])
+  else hp
+
 /-- `handleIncomingFrame` for one received frame -/
 def handleFrame (reasm : Bool) (validL3 : Bytes → Bool) (store : Store) (frame : Bytes) : Store × RxOut :=
   match decFrame frame with
